@@ -142,6 +142,62 @@ Definition run_deep (n : N) : list N :=
   else if n <=? 5000 then $"ok"
   else r_badcase.
 
+(* large <shape> <n>: size-n scripts of five shapes; compact source -> parse -> intended tree; print -> parse
+   -> same tree; load agrees with denote.  The model takes part while it can afford it (the un-memoised
+   parser is exponential in the nesting depth: shapes b, c only to n = 12; the flat shapes to n = 1000);
+   above that the case is an implementation-only check and the expected line is "ok". *)
+Definition xname (k : nat) : list N := 120 :: dec_str (N.of_nat k).
+Definition long_name : list N := 76 :: repeat 97 119.
+Definition two : expr := EAdd (EOperand 0) (EOperand 0).
+Definition large_term (k : nat) : expr :=
+  match Nat.modulo k 3 with
+  | O => EOperand 0
+  | S O => EShift (EIdent [120]) (N.of_nat (Nat.modulo k 4) + 1)
+  | _ => EDouble (EIdent [120])
+  end.
+Definition large_tree (shape : N) (n : nat) : option script :=
+  if shape =? 97 then   (* a: left-nested sum of n mixed terms *)
+    Some [mkStmt [120] two; mkStmt [] (fold_left (fun acc k => EAdd acc (large_term k)) (seq 1 (n - 1)%nat) (large_term 0))]
+  else if shape =? 98 then   (* b: right-nested sum *)
+    Some [mkStmt [97] two; mkStmt [] (fold_left (fun acc _ => EAdd (EIdent [97]) acc) (seq 0 n) (EIdent [97]))]
+  else if shape =? 99 then   (* c: nesting depth n of doubles and shifts *)
+    Some [mkStmt [120] two; mkStmt [] (fold_left (fun acc k => if Nat.even k then EDouble acc else EShift acc 1) (seq 0 n) (EIdent [120]))]
+  else if (shape =? 100) || (shape =? 101) then   (* d: n chained statements; e: n/3 of them, one with a 120 character name *)
+    let m := if shape =? 100 then Nat.max n 2 else Nat.max (Nat.div n 3) 2 in
+    let name k := if (shape =? 101) && (k =? Nat.div m 2)%nat then long_name else xname k in
+    Some (mkStmt (name O) two ::
+          map (fun k => mkStmt (name k) (EAdd (EIdent (name (k - 1)%nat)) (EOperand 0))) (seq 1 (m - 1)%nat) ++
+          [mkStmt [] (EIdent (name (m - 1)%nat))])
+  else None.
+Definition compact_stmt (s : stmt) : list N :=
+  match sname s with
+  | [] => $"return " ++ pr_expr (sexpr s)
+  | n => n ++ [61] ++ pr_expr (sexpr s) ++ [10]
+  end.
+Definition script_eqb (a b : script) : bool := str_eqb (enc_script a) (enc_script b).
+Definition run_large (shape : N) (n : nat) : list N :=
+  match large_tree shape n with
+  | None => r_badcase
+  | Some t =>
+    let afford := if (shape =? 98) || (shape =? 99) then (n <=? 12)%nat else (n <=? 1000)%nat in
+    if negb afford then (if N.of_nat n <=? 100000 then $"ok" else r_badcase) else
+    match parse (flat_map compact_stmt t) with
+    | Ok c =>
+      if negb (script_eqb c t) then r_err $"tree" else
+      match parse (print_script c) with
+      | Ok c2 =>
+        if negb (script_eqb c2 c) then r_err $"retree" else
+        match load_tree t, denote t with
+        | Ok (_, ops, vs), Ok (vs', ops') =>
+            if str_eqb (enc_chain vs) (enc_chain vs') && str_eqb (enc_ops ops) (enc_ops ops') then $"ok" else r_err $"load"
+        | _, _ => r_err $"load"
+        end
+      | _ => r_err $"reparse"
+      end
+    | _ => r_err $"parse"
+    end
+  end.
+
 Definition run_acc (line : list N) : list N :=
   match split sp line with
   | [f; a] =>
@@ -156,6 +212,7 @@ Definition run_acc (line : list N) : list N :=
       else if str_eqb f $"expr" then match dec_expr a with Some e => r_ok (print_bytes (pr_expr e)) | None => r_badcase end
       else r_badcase
   | [f; a; b] =>
+      if str_eqb f $"large" then match a, parse_nat b with [sh], Some n => run_large sh n | _, _ => r_badcase end else
       (* parsex <src> <expected tree>: the expectation is for the oracle only *)
       if str_eqb f $"parsex" then match parse_bytes a with Some s => print_outcome enc_script (parse s) | None => r_badcase end
       else r_badcase
